@@ -457,6 +457,16 @@ LinkCause(t, tab) ==
 (* ------------------------------------------------------------------------ *)
 DefaultOK(p) == p.default.some => (JsonOK(p.default.v) \/ (p.type.kind = "string" /\ QuotedOK(p.default.v)))
 
+RECURSIVE Parts(_, _)
+\* all (type, enclosing table) pairs below t
+Parts(t, tab) ==
+    {<<t, tab>>} \cup
+    CASE t.kind = "list"   -> Parts(t.items, tab)
+      [] t.kind = "map"    -> Parts(t.keys, tab) \cup Parts(t.values, tab)
+      [] t.kind = "object" -> UNION {Parts(p.type, tab) : p \in t.props}
+      [] t.kind = "oneof"  -> UNION {Parts(x.type, tab) : x \in t.members}
+      [] t.kind = "scope"  -> UNION {Parts(x.obj, t.objects) : x \in t.objects}
+      [] OTHER -> {}
 RECURSIVE UseCause(_)
 ScopeUseCause(sc) ==
     IF RootCause(sc) # "ok" THEN RootCause(sc) ELSE FirstBad({UseCause(x.obj) : x \in sc.objects})
@@ -474,7 +484,13 @@ DataScopes(ps) ==
     UNION {{x.x.input} \cup {o.x.schema : o \in x.x.outputs}
            \cup {g.x.data : g \in x.x.handlers} \cup {g.x.data : g \in x.x.emitters} : x \in ps.steps}
 TopScopes(s) == IF s.kind = "schema" THEN DataScopes(s) ELSE {s}
-LinkCauseTop(s) == FirstBad({ScopeLinkCause(sc) : sc \in TopScopes(s)})
+\* a plugin schema stands alone: nobody will ever apply a foreign namespace to it, so a reference to one
+\* fails its link step (ValidateReferences); a stand-alone scope may be embedded and linked later
+HasForeignRef(sc) == \E pr \in Parts(sc, {}) : pr[1].kind = "ref" /\ pr[1].ns # ""
+LinkCauseTop(s) ==
+    LET c == FirstBad({ScopeLinkCause(sc) : sc \in TopScopes(s)}) IN
+    IF c # "ok" THEN c
+    ELSE IF s.kind = "schema" /\ \E sc \in TopScopes(s) : HasForeignRef(sc) THEN "foreign_ref" ELSE "ok"
 UseCauseTop(s)  == FirstBad({ScopeUseCause(sc) : sc \in TopScopes(s)})
 
 \* stage at which a description is turned down, and why: the classification exported with every vector
@@ -491,16 +507,6 @@ Classify(target, n) ==
 (* under the root's own ID, every one-of agrees with its members about the  *)
 (* discriminator, every default is decodable.                               *)
 (* ------------------------------------------------------------------------ *)
-RECURSIVE Parts(_, _)
-\* all (type, enclosing table) pairs below t
-Parts(t, tab) ==
-    {<<t, tab>>} \cup
-    CASE t.kind = "list"   -> Parts(t.items, tab)
-      [] t.kind = "map"    -> Parts(t.keys, tab) \cup Parts(t.values, tab)
-      [] t.kind = "object" -> UNION {Parts(p.type, tab) : p \in t.props}
-      [] t.kind = "oneof"  -> UNION {Parts(x.type, tab) : x \in t.members}
-      [] t.kind = "scope"  -> UNION {Parts(x.obj, t.objects) : x \in t.objects}
-      [] OTHER -> {}
 UsableScope(sc) ==
     \A pr \in Parts(sc, {}) :
         LET t == pr[1]  tab == pr[2] IN
@@ -510,7 +516,7 @@ UsableScope(sc) ==
         /\ t.kind = "oneof" =>
               /\ \A x \in t.members : MemberCause(x.type, tab) = "ok"
               /\ InlineOK(t, tab)
-Usable(s) == \A sc \in TopScopes(s) : UsableScope(sc)
+Usable(s) == \A sc \in TopScopes(s) : UsableScope(sc) /\ (s.kind = "schema" => ~HasForeignRef(sc))
 
 (* ------------------------------------------------------------------------ *)
 (* transports: what CBOR, YAML and JSON do to a description on the way       *)
